@@ -1,15 +1,11 @@
 (* C15, part 6 — every valid EDNS option is emitted as its RFC wire form and that wire form decodes
    to the same option.  src/encode/rr/edns/*.rs against src/decode/rr/edns/*.rs. *)
-From DNS Require Import Model.Dec Model.Enc Proofs.DecBase Proofs.C12 Proofs.OptBase Proofs.OptDec.
+From DNS Require Import Proofs.EncTotal Model.Dec Model.Enc Proofs.DecBase Proofs.C12 Proofs.OptBase Proofs.OptDec.
 Require Import ZArith ZifyBool ZifyN ZifyNat.
 Local Open Scope N_scope.
 Ltac Zify.zify_post_hook ::= Z.div_mod_to_equations.
 
 (* ---- generated constants ---- *)
-Lemma OP_enc_prefix4_val : OP_enc_prefix4 = CLt. Proof. reflexivity. Qed.
-Lemma OP_enc_prefix6_val : OP_enc_prefix6 = CLt. Proof. reflexivity. Qed.
-Lemma ENC_PREFIX_STEP4_val : ENC_PREFIX_STEP4 = 8. Proof. reflexivity. Qed.
-Lemma ENC_PREFIX_STEP6_val : ENC_PREFIX_STEP6 = 8. Proof. reflexivity. Qed.
 Lemma OPT_codes_in_table :
   in_table EDNSOptionCode_table 8 = true /\ in_table EDNSOptionCode_table 10 = true /\
   in_table EDNSOptionCode_table 12 = true.
@@ -21,8 +17,9 @@ Proof. split; [|split]; reflexivity. Qed.
 
 Definition cookie_body (c : cookie) : bytes :=
   c_client c ++ match c_server c with Some sv => sv | None => [] end.
-(* the address is cut after the octet that holds bit number max(source, scope) *)
-Definition ecs_cut (e : ecs) : bytes := takeN (ecs_prefix e / 8 + 1) (a_oct (e_addr e)).
+(* the address is written up to its last non-zero octet, but with at least ceil(source / 8) octets *)
+Definition ecs_count (e : ecs) : N := N.max (addr_significant (a_oct (e_addr e))) ((e_src e + 7) / 8).
+Definition ecs_cut (e : ecs) : bytes := takeN (ecs_count e) (a_oct (e_addr e)).
 Definition ecs_body (e : ecs) : bytes :=
   u16b (a_fam (e_addr e)) ++ u8b (e_src e) ++ u8b (e_scope e) ++ ecs_cut e.
 Definition opt_body (o : ednsopt) : bytes :=
@@ -49,26 +46,9 @@ Definition opt_valid (o : ednsopt) : Prop :=
 (* Encoder                                                                                           *)
 (* ================================================================================================ *)
 
-Lemma addr_prefix_loop_spec : forall (oct : bytes) (p : N),
-  addr_prefix_loop CLt 8 oct p = Ok (takeN (p / 8 + 1) oct).
-Proof.
-  induction oct as [|b r IH]; intro p.
-  - unfold takeN. rewrite firstn_nil. reflexivity.
-  - cbn [addr_prefix_loop cmp_apply].
-    assert (takeN (p / 8 + 1) (b :: r) = b :: takeN (p / 8) r) as E.
-    { unfold takeN. replace (N.to_nat (p / 8 + 1)) with (S (N.to_nat (p / 8))) by lia. reflexivity. }
-    rewrite E. destruct (p <? 8) eqn:E1.
-    + replace (p / 8) with 0 by lia. reflexivity.
-    + rewrite IH. replace ((p - 8) / 8 + 1) with (p / 8) by lia. reflexivity.
-Qed.
-
-Lemma emits_address (a : addr) (p : N) :
-  emits (rr_address_with_prefix a p) (takeN (p / 8 + 1) (a_oct a)).
-Proof.
-  intro st. unfold rr_address_with_prefix.
-  rewrite OP_enc_prefix4_val, OP_enc_prefix6_val, ENC_PREFIX_STEP4_val, ENC_PREFIX_STEP6_val.
-  destruct (a_fam a =? 1); rewrite addr_prefix_loop_spec; reflexivity.
-Qed.
+Lemma emits_address (a : addr) (m : N) :
+  emits (rr_address_with_length a m) (takeN (N.max (addr_significant (a_oct a)) m) (a_oct a)).
+Proof. intro st. rewrite rr_address_with_length_eq. reflexivity. Qed.
 
 Lemma emits_cookie_server (o : option bytes) :
   emits (match o with Some s => put s | None => eret tt end) (match o with Some sv => sv | None => [] end).
@@ -85,7 +65,7 @@ Qed.
 Lemma ecs_body_len e : addr_wf (e_addr e) -> lenN (ecs_body e) = 4 + lenN (ecs_cut e) /\ lenN (ecs_cut e) <= 16.
 Proof.
   intro W. unfold ecs_body. rewrite !lenN_app, lenN_u16b, !lenN_u8b. split; [lia|].
-  pose proof (lenN_takeN_le (ecs_prefix e / 8 + 1) (a_oct (e_addr e))) as H. fold (ecs_cut e) in H.
+  pose proof (lenN_takeN_le (ecs_count e) (a_oct (e_addr e))) as H. fold (ecs_cut e) in H.
   destruct (addr_wf_len _ W) as [L [F|F]]; rewrite L in H; unfold fam_size in H; rewrite F in H.
   - change (1 =? 1) with true in H. cbv iota in H. lia.
   - change (2 =? 1) with false in H. cbv iota in H. lia.
@@ -101,9 +81,9 @@ Proof.
 Qed.
 
 Lemma emits_ecs_body e : emits (_ <-- eu16 (a_fam (e_addr e)) ;; _ <-- eu8 (e_src e) ;; _ <-- eu8 (e_scope e) ;;
-                                rr_address_with_prefix (e_addr e) (ecs_prefix e)) (ecs_body e).
+                                rr_address_with_length (e_addr e) ((e_src e + 7) / 8)) (ecs_body e).
 Proof.
-  unfold ecs_body, ecs_cut.
+  unfold ecs_body, ecs_cut, ecs_count.
   apply emits_seq; [apply emits_eu16|]. apply emits_seq; [apply emits_eu8|].
   apply emits_seq; [apply emits_eu8|]. apply emits_address.
 Qed.
@@ -117,16 +97,17 @@ Lemma emits_option (o : ednsopt) : opt_valid o -> emits (enc_edns_option o) (opt
 Proof.
   intro V. pose proof (opt_body_len o V) as HL. intro st. unfold opt_wire.
   destruct o as [e|c|n]; cbn [enc_edns_option opt_code opt_body] in *.
-  - unfold enc_ecs, OPT_ECS.
+  - unfold enc_ecs, OPT_ECS. rewrite ecs_minimum_length_eq.
     rewrite (bind_emits _ _ _ st (emits_eu16 8)), cli_spec.
     set (st1 := app_buf st (u16b 8)).
     rewrite (bind_emits _ _ _ _ (emits_eu16 (a_fam (e_addr e)))).
     rewrite (bind_emits _ _ _ _ (emits_eu8 (e_src e))).
     rewrite (bind_emits _ _ _ _ (emits_eu8 (e_scope e))).
-    rewrite (bind_emits _ _ _ _ (emits_address (e_addr e) (ecs_prefix e))).
+    rewrite (bind_emits _ _ _ _ (emits_address (e_addr e) ((e_src e + 7) / 8))).
     rewrite (app_buf4 (app_buf st1 [0; 0])).
     change (u16b (a_fam (e_addr e)) ++ u8b (e_src e) ++ u8b (e_scope e) ++
-            takeN (ecs_prefix e / 8 + 1) (a_oct (e_addr e))) with (ecs_body e).
+            takeN (N.max (addr_significant (a_oct (e_addr e))) ((e_src e + 7) / 8)) (a_oct (e_addr e)))
+      with (ecs_body e).
     rewrite (sli_spec st1 (ecs_body e) HL). unfold st1. rewrite app_buf_app. reflexivity.
   - unfold enc_cookie, OPT_COOKIE.
     rewrite (bind_emits _ _ _ st (emits_eu16 10)), cli_spec.
@@ -213,36 +194,17 @@ Proof.
   rewrite (A1 V (zeros_all_zero _)). reflexivity.
 Qed.
 
-(* the octets the writer cuts off are zero, so zero-filling restores the address *)
-Lemma check_addr_bits_tail bits e1 e2 (oct : bytes) p :
-  lenN oct * 8 = bits -> check_addr_bits bits e1 e2 oct p = Ok tt ->
-  forallb (N.eqb 0) (dropN (p / 8 + 1) oct) = true.
+(* the octets the writer cuts off lie behind the last non-zero one, so zero-filling restores the
+   address: whatever the minimum length, and without any appeal to the prefix *)
+Lemma zero_fill_cut (a : addr) (k : N) : addr_wf a -> addr_significant (a_oct a) <= k ->
+  zero_fill (a_fam a) (takeN k (a_oct a)) = a.
 Proof.
-  intros HL. unfold check_addr_bits.
-  destruct (bits <? p) eqn:E1; [discriminate|].
-  destruct (bits =? p) eqn:E2.
-  - intros _. rewrite dropN_all; [reflexivity|lia].
-  - destruct (nthN (p / 8) oct) as [o|]; [|discriminate].
-    destruct (8 <=? p mod 8); [discriminate|].
-    destruct (negb (N.land o (N.shiftr PREFIX_MASK (p mod 8)) =? 0)); [discriminate|].
-    destruct (lenN oct <? p / 8 + 1); [discriminate|].
-    destruct (forallb (N.eqb 0) (dropN (p / 8 + 1) oct)); [reflexivity|discriminate].
-Qed.
-
-Lemma zero_fill_cut (a : addr) (p : N) : addr_wf a -> prefix_ok a p ->
-  zero_fill (a_fam a) (takeN (p / 8 + 1) (a_oct a)) = a.
-Proof.
-  intros W P. pose proof (proj2 (proj1 (check_prefix_spec a p W)) P) as C.
-  destruct (addr_wf_len a W) as [L F].
-  assert (forallb (N.eqb 0) (dropN (p / 8 + 1) (a_oct a)) = true) as Z.
-  { unfold check_prefix in C. destruct (a_fam a =? 1) eqn:E.
-    - eapply check_addr_bits_tail; [|exact C]. rewrite L. unfold fam_size. rewrite E. reflexivity.
-    - eapply check_addr_bits_tail; [|exact C]. rewrite L. unfold fam_size. rewrite E. reflexivity. }
+  intros W Hk. destruct (addr_wf_len a W) as [L F].
+  pose proof (addr_significant_dropped (a_oct a) k Hk) as Z.
   apply forallb_zero_zeros in Z.
   destruct a as [fam oct]. cbn [a_fam a_oct] in *. unfold zero_fill. f_equal.
-  set (m := p / 8 + 1) in *.
-  assert (oct = takeN m oct ++ dropN m oct) as Ho by (symmetry; apply takeN_dropN_id).
-  assert (N.to_nat (fam_size fam - lenN (takeN m oct)) = length (dropN m oct)) as Hn.
+  assert (oct = takeN k oct ++ dropN k oct) as Ho by (symmetry; apply takeN_dropN_id).
+  assert (N.to_nat (fam_size fam - lenN (takeN k oct)) = length (dropN k oct)) as Hn.
   { rewrite <- L. unfold lenN, takeN, dropN. rewrite firstn_length, skipn_length. lia. }
   rewrite Hn, <- Z. symmetry. exact Ho.
 Qed.
@@ -267,7 +229,8 @@ Proof.
   cbv zeta in A. rewrite (u16b_be fam Hfam) in A.
   replace (e_src e mod 256) with (e_src e) in A by lia.
   replace (e_scope e mod 256) with (e_scope e) in A by lia.
-  assert (zero_fill fam (ecs_cut e) = e_addr e) as Z by (apply zero_fill_cut; assumption).
+  assert (zero_fill fam (ecs_cut e) = e_addr e) as Z.
+  { unfold ecs_cut, fam. apply zero_fill_cut; [exact W|]. unfold ecs_count. lia. }
   rewrite Z in A. rewrite A.
   - destruct e as [src scope a]. reflexivity.
   - exact F.
